@@ -20,3 +20,6 @@ open GoRedis
 #print axioms C12_card
 #print axioms C12_sismember
 #print axioms C12_ping_echo
+#print axioms C12_limit_members
+#print axioms C12_limit_pairs
+#print axioms C12_zrevrangebyscore_reply
